@@ -250,7 +250,10 @@ class ShelfCreator:
     def _content_from_tree(tt, tree, file_id):
         trans_id = tt.trans_id_file_id(file_id)
         tt.delete_contents(trans_id)
-        transform.create_from_tree(tt, trans_id, tree, tree.id2path(file_id))
+        path = tree.id2path(file_id)
+        transform.create_from_tree(tt, trans_id, tree, path)
+        if tree.kind(path) == "file":
+            tt.set_executability(tree.is_executable(path), trans_id)
 
     def shelve_content_change(self, file_id):
         """Shelve a kind change or binary file content change.
@@ -331,9 +334,12 @@ class ShelfCreator:
                 if kind is None:
                     to_transform.create_file([b""], s_trans_id)
                 else:
-                    transform.create_from_tree(
-                        to_transform, s_trans_id, tree, tree.id2path(file_id)
-                    )
+                    path = tree.id2path(file_id)
+                    transform.create_from_tree(to_transform, s_trans_id, tree, path)
+                    if kind == "file":
+                        to_transform.set_executability(
+                            tree.is_executable(path), s_trans_id
+                        )
         if version:
             to_transform.version_file(s_trans_id, file_id=file_id)
 
